@@ -1,6 +1,7 @@
 (* C30 driver.  cases (see harness/h_c30.cpp):
      q <nq> <slotsize> <progs> <sched> | w <progs> <sched> | v <progs> <sched>
-     s <slotsize> <ops> | f <np> <nc> <ops> <nq>
+     s <slotsize> <ops> | f <np> <nc> <ops> <nq> | b <w|q> <nq> <seg> <np> <N>
+     l <seg> <N> <cmds> | L <w|q> <nq> <seg> <N> <cmds>   (summary lines, judged by backlog_ok)
    result: the trace as tokens; the oracle is applied to the parsed tokens of the implementation *)
 let fuel = 400
 
@@ -90,7 +91,7 @@ let () = run_protocol (fun case impl ->
                 free_ok (n_of_int np) (n_of_int ops) (n_of_int t) (n_of_int d) (n_of_int l) (n_of_int o) (n_of_int s))
               with _ -> false) in
     (expected, oi, true)
-  | ["b"; _; _; _; _; n] ->
+  | ["b"; _; _; _; _; n] | ["l"; _; n; _] | ["L"; _; _; _; n; _] ->
     (* large backlog: digest only — the extracted interleaving model (unary tickets) is not run;
        the expected line is what a queue that delivers everything in order prints *)
     let n = int_of_string n in
